@@ -324,6 +324,20 @@ static void flush_bitpack(carquet_rle_encoder_t* enc) {
     enc->bitpack_total = 0;
 }
 
+/* A bit-packed group must hold 8 real values unless it is the last group of the
+ * stream: before an RLE run is written, complete a pending partial group with
+ * values taken from the run (the run has at least 8 values, at most 7 are taken). */
+static void complete_bitpack_group(carquet_rle_encoder_t* enc) {
+    if (enc->bitpack_count == 0) return;
+
+    while (enc->bitpack_count < 8) {
+        enc->bitpack_buffer[enc->bitpack_count++] = enc->prev_value;
+        enc->bitpack_total++;
+        enc->repeat_count--;
+    }
+    flush_bitpack(enc);
+}
+
 void carquet_rle_encoder_init(
     carquet_rle_encoder_t* enc,
     carquet_buffer_t* buffer,
@@ -358,7 +372,7 @@ carquet_status_t carquet_rle_encoder_put(
     /* Value changed */
     if (enc->repeat_count >= 8) {
         /* Flush as RLE */
-        flush_bitpack(enc);  /* Flush any pending bit-pack */
+        complete_bitpack_group(enc);  /* Finish any pending bit-pack group */
         flush_rle(enc);
     } else {
         /* Add to bit-pack buffer */
@@ -396,7 +410,7 @@ carquet_status_t carquet_rle_encoder_flush(carquet_rle_encoder_t* enc) {
     }
 
     if (enc->repeat_count >= 8) {
-        flush_bitpack(enc);
+        complete_bitpack_group(enc);
         flush_rle(enc);
     } else if (enc->repeat_count > 0) {
         for (int64_t i = 0; i < enc->repeat_count; i++) {
